@@ -11,8 +11,43 @@ def impl(case):
     from paulie import PauliString, get_pauli_string
     from paulie.common.pauli_string_parser import pauli_string_parser
     if case["op"] == "parse":
+        # "parsing always terminates": every text is read under its own watchdog (an interval timer that interrupts a busy loop), so that
+        # one text that never returns is reported as such instead of taking its whole batch down
+        import signal
+        class _TimedOut(BaseException):
+            pass
+        def _alarm(signum, frame):
+            raise _TimedOut()
+        signal.signal(signal.SIGALRM, _alarm)
         out = []
         for t in case["texts"]:
+            signal.setitimer(signal.ITIMER_REAL, 5.0)
+            try:
+                out_before = len(out)
+                _parse_one(t, out, pauli_string_parser, PauliString, get_pauli_string)
+            except _TimedOut:
+                del out[out_before:]
+                out.append(["timeout"])
+            finally:
+                signal.setitimer(signal.ITIMER_REAL, 0)
+        return {"res": out}
+    if case["op"] == "klocal":
+        out = []
+        for n, gens in case["items"]:
+            try:
+                c = get_pauli_string(gens, n=n)
+                out.append(["ok", [str(p) for p in c]])
+            except ValueError:
+                out.append(["ValueError"])
+            except Exception as e:  # noqa
+                out.append(["other", type(e).__name__])
+        return {"res": out}
+    raise ValueError(case["op"])
+
+
+def _parse_one(t, out, pauli_string_parser, PauliString, get_pauli_string):
+    if True:
+        if True:
             try:
                 r = pauli_string_parser(t)
                 r2 = str(PauliString(pauli_str=t))
@@ -37,19 +72,6 @@ def impl(case):
                     out.append(["other", type(e).__name__])
             except Exception as e:  # noqa
                 out.append(["other", type(e).__name__])
-        return {"res": out}
-    if case["op"] == "klocal":
-        out = []
-        for n, gens in case["items"]:
-            try:
-                c = get_pauli_string(gens, n=n)
-                out.append(["ok", [str(p) for p in c]])
-            except ValueError:
-                out.append(["ValueError"])
-            except Exception as e:  # noqa
-                out.append(["other", type(e).__name__])
-        return {"res": out}
-    raise ValueError(case["op"])
 
 
 def hexs(t):
@@ -90,6 +112,7 @@ def main():
         ck.finish()
     ck.check_props()
     ck.check_translation("parser")
+    ck.check_translation("factory")      # the k-local expansion (two generators sharing a Used object) = Model/Parser.k_local_generators
     rng = ck.rng
     texts = [""]
     A = "IXYZ_s12"
@@ -137,6 +160,8 @@ def main():
                 why = "text with a character outside the notation's alphabet is accepted as %r" % r[1]
             elif t in spec_expect and r[1] != spec_expect[t]:
                 why = "sparse notation expands to %r, expected %r" % (r[1], spec_expect[t])
+        elif r[0] == "timeout":
+            why = "parsing does not terminate (no answer within 5 s; the model of the parser says %r)" % (want,)
         elif r[0] != "ValueError":
             why = "rejected with %s instead of ValueError" % (r[1:],)
         if why is None and r != want:
